@@ -528,3 +528,103 @@ pub async fn chaos(ctx: Ctx, steps: u64) {
         }
     }
 }
+
+
+/// Battery (C15): holds one value of every kind on the victim client, waits until the driver says
+/// the termination cause has happened (`true`) or will not happen (`false`), then starts one
+/// operation on each value. Every operation must return.
+pub async fn battery(ctx: Ctx, other: Option<ServiceSlot>, fault: Rc<Slot<bool>>) {
+    let h = ctx.handle.clone();
+    let object = op!(ctx, "create_object", json!({"uuid": 200}), h.create_object(obj_uuid(200))).ok();
+    let mut service = match &object {
+        Some(o) => op!(ctx, "create_service", json!({"uuid": 200}), o.create_service(svc_uuid(200), ServiceInfo::new(1))).ok(),
+        None => None,
+    };
+    let mut own_proxy = match &service {
+        Some(s) => op!(ctx, "create_proxy", json!({}), Proxy::new(&h, s.id())).ok(),
+        None => None,
+    };
+    let other_proxy = match other {
+        Some(slot) => match slot.get().await {
+            Some(id) => op!(ctx, "create_proxy", json!({}), Proxy::new(&h, id)).ok(),
+            None => None,
+        },
+        None => None,
+    };
+    let pending_call = other_proxy.as_ref().map(|p| p.call(0, ctx.token(), None));
+    let mut chan = None;
+    if let Ok((pending, unclaimed)) = op!(ctx, "create_channel_claim_sender", json!({}), h.create_low_level_channel().claim_sender()) {
+        if let Ok(receiver) = op!(ctx, "claim_receiver", json!({"cap": 4}), unclaimed.claim(4)) {
+            if let Ok(sender) = op!(ctx, "establish_sender", json!({}), pending.establish()) {
+                chan = Some((sender, receiver));
+            }
+        }
+    }
+    let mut listener = op!(ctx, "create_bus_listener", json!({}), h.create_bus_listener()).ok();
+    if let Some(l) = listener.as_mut() {
+        let _ = l.add_filter(aldrin_core::BusListenerFilter::any_object());
+        let _ = op!(ctx, "listener_start", json!({}), l.start(aldrin_core::BusListenerScope::New));
+    }
+    let scope = op!(ctx, "create_lifetime_scope", json!({}), h.create_lifetime_scope()).ok();
+
+    let happened = fault.get().await;
+    ctx.log.fact(&ctx.name, "battery", json!({"happened": happened}));
+
+    let _ = op!(ctx, "sync_client", json!({}), h.sync_client());
+    let _ = op!(ctx, "sync_broker", json!({}), h.sync_broker());
+    let _ = op!(ctx, "create_object", json!({"uuid": 201}), h.create_object(obj_uuid(201)));
+    if let Some(o) = &object {
+        let _ = op!(ctx, "create_service", json!({"uuid": 201}), o.create_service(svc_uuid(201), ServiceInfo::new(1)));
+    }
+    if let Some(p) = own_proxy.as_mut() {
+        let _ = op!(ctx, "subscribe", json!({"ev": 0}), p.subscribe(0));
+        if happened {
+            let id = ctx.log.start(&ctx.name, "own_call", json!({}));
+            let r = p.call(0, 0u32, None).await;
+            ctx.log.ret(&ctx.name, "own_call", id, if r.is_ok() { "ok" } else { "err" }, json!({}));
+            let id = ctx.log.start(&ctx.name, "next_event", json!({}));
+            let r = p.next_event().await;
+            ctx.log.ret(&ctx.name, "next_event", id, if r.is_some() { "some" } else { "none" }, json!({}));
+        }
+    }
+    if let Some(s) = service.as_mut() {
+        if happened {
+            let id = ctx.log.start(&ctx.name, "next_call", json!({}));
+            let r = s.next_call().await;
+            ctx.log.ret(&ctx.name, "next_call", id, if r.is_some() { "some" } else { "none" }, json!({}));
+        }
+        let _ = s.emit(0, 1u32);
+    }
+    if let Some(pc) = pending_call {
+        let id = ctx.log.start(&ctx.name, "pending_call", json!({}));
+        let r = pc.await;
+        ctx.log.ret(&ctx.name, "pending_call", id, if r.is_ok() { "ok" } else { "err" }, json!({}));
+    }
+    if let Some((mut sender, mut receiver)) = chan {
+        let id = ctx.log.start(&ctx.name, "send_item", json!({"chan": 0, "k": 1}));
+        let r = sender.send_item(1u32).await;
+        ctx.log.ret(&ctx.name, "send_item", id, &res_str(&r), json!({}));
+        if happened || r.is_ok() {
+            let id = ctx.log.start(&ctx.name, "battery_next_item", json!({}));
+            let r = receiver.next_item::<u32>().await;
+            ctx.log.ret(&ctx.name, "battery_next_item", id, if matches!(r, Ok(Some(_))) { "some" } else { "end" }, json!({}));
+        }
+        let _ = op!(ctx, "sender_close", json!({}), sender.close());
+        let _ = op!(ctx, "receiver_close", json!({}), receiver.close());
+    }
+    if let Some(l) = listener.as_mut() {
+        if happened {
+            let id = ctx.log.start(&ctx.name, "listener_next_event", json!({}));
+            let r = l.next_event().await;
+            ctx.log.ret(&ctx.name, "listener_next_event", id, if r.is_some() { "some" } else { "none" }, json!({}));
+        }
+        let _ = op!(ctx, "listener_stop", json!({}), l.stop());
+        let _ = op!(ctx, "listener_destroy", json!({}), l.destroy());
+    }
+    if let Some(sc) = scope {
+        let _ = op!(ctx, "lifetime_end", json!({}), sc.end());
+    }
+    if let Some(o) = &object {
+        let _ = op!(ctx, "destroy_object", json!({}), o.destroy());
+    }
+}
